@@ -180,6 +180,24 @@ def rule_outwrite(rep, tname, m):
     facts = rep.ctx.facts
     R = "R-C03-outwrite"
     fn = m["fn"]
+    # the caller's output buffers are touched in exactly three kinds of places: the validate_buffers call, assertions about their length, and the
+    # one per-frame write of each arm (bounded below).  Any other access - a clean-up loop, a zero fill beyond the frames reported - is a write
+    # the advertised counts do not cover.
+    allowed = set()
+    for x in walk(m["validate"]["node"]):
+        allowed.add(id(x))
+    for x in walk(fn["body"]):
+        if x.get("k") == "macro" and (x["name"].split("::")[-1] in PANIC_MACROS or x["name"] in ir.NOOP_MACROS):
+            for y in walk(x):
+                allowed.add(id(y))
+    for a in m["arms"]:
+        for w in a.get("writes", []):
+            for y in walk(w["lhs_raw"]):
+                allowed.add(id(y))
+    others = [x for x in walk(fn["body"]) if is_path(x, m["wave_out"]) and id(x) not in allowed]
+    rep.ob(R, "%s/no-other-access" % tname, not others,
+           "`%s` is accessed outside the validate_buffers call, the length assertions and the per-frame writes of the arms (line%s %s): a write there is not covered by the "
+           "frame count the call reports" % (m["wave_out"], "s" if len(others) > 1 else "", sorted({x.get("ln") for x in others})), loc(fn, others[0]) if others else loc(fn))
     fixed = RESAMPLERS[tname]["fixed"]
     min_out = m["validate"]["args"][5]
     for a in m["arms"]:
@@ -727,7 +745,7 @@ def run(rep):
     rep.guarded("R-C03-window", C08.rule_window, "R-C03-window")
     rep.floor("R-C03-guard", 1 + 4 * 4 + 1)
     rep.floor("R-C03-chan", 18 + 8)
-    rep.floor("R-C03-outwrite", 18)
+    rep.floor("R-C03-outwrite", 22)
     rep.floor("R-C03-margin", 2 + 9 + 9)
     rep.floor("R-C03-history", 2)
     rep.floor("R-C03-subindex", 2)
